@@ -52,6 +52,11 @@ PRO_ONLY = {
 }
 
 
+PV_WRAPS = [("{}", lambda v: v), ("min(200, {})", lambda v: min(200, v)), ("min({}, 200)", lambda v: min(v, 200)), ("max(1, {})", lambda v: max(1, v)), ("max({}, 1)", lambda v: max(v, 1)),
+            ("min(200, max(1, {}))", lambda v: min(200, max(1, v))), ("({} + 1)", lambda v: v + 1), ("(2 * {})", lambda v: 2 * v), ("abs({})", abs), ("int({})", int),
+            ("(3 + min(40, {}))", lambda v: 3 + min(40, v)), ("max(2, 1, {})", lambda v: max(2, 1, v)), ("({} if {} > 3 else 1)".replace("{}", "{0}"), lambda v: v if v > 3 else 1)]
+
+
 @st.composite
 def phase_script(draw):
     has_loop = draw(st.integers(0, 9)) > 0
@@ -165,6 +170,11 @@ def phase_script(draw):
                 info["loop_values"].append(f"@W{name}={val}")
             body += ["pv = pv + 1", "mon.write('@X=' + str(pv))"]
             info["pv_final"] = pv
+            if draw(st.booleans()):
+                # the persisting value as (part of) a wait argument: the wait of pass i must follow the value of pass i, whatever expression carries it
+                wi = draw(st.integers(0, len(PV_WRAPS) - 1))
+                body += [f"sleep({PV_WRAPS[wi][0].format('pv')})", "mon.write('@Y')"]
+                info["pv_wait"] = wi
         avail = kinds + [k for k in pro_kinds if not (info["anim"] and k in ("lcd", "lci"))]
         for _ in range(draw(st.integers(0, 5))):
             if avail and draw(st.booleans()):
@@ -248,6 +258,18 @@ def monitors(case, trace):
             xs = [x for x in sers(le) if x.startswith("@X=")]
             if xs != [f"@X={info['pv_final'] + i + 1}"]:
                 fails.append(("m2-prologue-value-does-not-persist", f"pass {i}: @X={info['pv_final'] + i + 1}", xs))
+        if info.get("pv_wait") is not None and info.get("pv_final") is not None:
+            want = PV_WRAPS[info["pv_wait"]][1](info["pv_final"] + i + 1)
+            seq = [(k, a) for _, k, a in le if k == "DELAY" or (k == "SER" and (a.startswith("@X=") or a == "@Y"))]
+            j = next((q for q, (k, a) in enumerate(seq) if a.startswith("@X=")), None)
+            got = []
+            if j is not None:
+                for k, a in seq[j + 1:]:
+                    if k == "SER":
+                        break
+                    got.append(int(a.split()[0]))
+            if got != [want]:
+                fails.append(("m2-wait-does-not-follow-persisting-value", f"pass {i}: delay({want})", got))
     # m2 body markers once per pass in order; counter continues
     if any(s.startswith("@L") for s in sers(setup)):
         fails.append(("m2-body-ran-in-setup", "no body marker in setup()", sers(setup)))
